@@ -526,6 +526,15 @@ func (g *generator) callExisting(
 ) ([]jen.Code, *xtype.JenID, *builder.Error) {
 	signature := xtype.SignatureOf(source, target)
 	if def, err := g.extend.Get(signature, ctx.AvailableContext); def != nil {
+		if g.isFieldSettingsPair(ctx, source, target) {
+			return nil, nil, builder.NewError(fmt.Sprintf(`Unused struct settings found.
+
+The conversion is done by the custom function:
+    %s
+
+and therefore these field related settings would be ignored:
+    goverter:%s`, def.OriginID, strings.Join(ctx.Conf.RawFieldSettings, "\n    goverter:")))
+		}
 		return g.CallMethod(ctx, def, sourceID, source, target, errPath)
 	} else if err != nil {
 		return nil, nil, builder.NewError(err.Error())
@@ -536,6 +545,19 @@ func (g *generator) callExisting(
 		return nil, nil, builder.NewError(err.Error())
 	}
 	return nil, nil, nil
+}
+
+// isFieldSettingsPair reports whether source and target are the structs the
+// field settings of the current method were written for.
+func (g *generator) isFieldSettingsPair(ctx *builder.MethodContext, source, target *xtype.Type) bool {
+	if len(ctx.Conf.RawFieldSettings) == 0 || ctx.FieldsTarget != target.String || ctx.Conf.Source == nil {
+		return false
+	}
+	methodSource := ctx.Conf.Source
+	if methodSource.Pointer {
+		methodSource = methodSource.PointerInner
+	}
+	return methodSource.String == source.String
 }
 
 func (g *generator) shouldCreateSubMethod(ctx *builder.MethodContext, source, target *xtype.Type) bool {
